@@ -66,7 +66,7 @@ func (c *compiler) initRuntimeFunctions() {
 
 	_libc_memcmp_irfun = c.declareExternalRuntimeFunction(
 		"memcmp",
-		ddpbool,
+		i32, // int memcmp(const void *, const void *, size_t)
 		ir.NewParam("buf1", i8ptr),
 		ir.NewParam("buf2", i8ptr),
 		ir.NewParam("size", i64),
